@@ -20,7 +20,7 @@ import ast
 MUTATORS = {"clear", "update", "pop", "popitem", "setdefault", "append", "extend", "insert", "remove", "add", "discard",
             "sort", "reverse", "appendleft", "move_to_end"}
 # wrappers that lose nothing of their argument
-INJECTIVE_CALLS = {"bytes", "tuple", "int", "str", "repr", "bytearray", "list", "frozenset", "id"}
+INJECTIVE_CALLS = {"bytes", "tuple", "int", "str", "repr", "bytearray", "list"}      # not id() (reused after collection), not set/frozenset (order, multiplicity)
 INJECTIVE_ATTRS = {"n", "coeffs", "__qualname__", "__name__", "__class__"}
 
 
